@@ -1,7 +1,8 @@
 (* C11/Properties.v — the property theorems, nothing else.  Each is closed by [exact lemma]
    and followed by Print Assumptions (captured into the evidence by the check driver). *)
 From Coq Require Import Permutation.
-From Verif Require Import Common.Base Generated.StatusTable C11.Model C11.Diagram C11.Proofs C11.ProofsConc.
+From Verif Require Import Common.Base Generated.StatusTable C11.Model C11.Diagram C11.Proofs C11.ProofsConc C11.ProofsRepair C11.ProofsTie.
+From Verif Require Import Generated.C11Ring.
 
 (* The transition table read from the Go source IS the documented diagram (instance obligation,
    re-checked against the regenerated table on every run). *)
@@ -127,6 +128,45 @@ Theorem check_then_act_auto_ok_refuted :
     ~ In out (conc_outcomes pre [(i, RAutoOK); (i, RStatus s)]).
 Proof. exact na_refuted_l. Qed.
 
+(* ---- status watchers (Extensions.NotifyComponentStatusChange) -----------------------------------------
+   Every status-watcher extension (ws = the watcher extensions in start order, without repetition) is
+   delivered exactly the events the reporter accepted, in order, whether it has been started or not ... *)
+Theorem watcher_sees_every_event : forall ws w evs, NoDup ws -> In w ws ->
+  seen_by w (watcher_deliveries ws evs) = evs.
+Proof. exact watcher_sees_all_l. Qed.
+
+(* ... hence what ANY watcher sees for ANY instance, for any reports in any interleaving, is a path of the diagram. *)
+Theorem watchers_see_diagram_paths : forall ws w ls i, NoDup ws -> In w ws ->
+  path SNone (proj_events i (seen_by w (watcher_deliveries ws (snd (rep_run [] ls))))).
+Proof. exact watcher_path_l. Qed.
+
+(* ---- the PROPOSED repair of finding S3 (sc2_*: not the code as it is; props/C11/NOTES.md) -----------------
+   shared_delivers_all at full strength — NO bound on the reports before the late attach, any reports
+   (legal or not) before and after: with cur = the status instance i holds at the moment j attaches,
+   i is delivered its events so far and then the events of es' from cur; j is delivered the canonical path
+   from None to cur (begins with Starting, ends in cur: both instances now hold the SAME status) and then
+   exactly the same events as i. *)
+Theorem shared_repaired_delivers_all : forall i j es es',
+  i <> j ->
+  let os := ScAttach i :: map ScReport es ++ ScAttach j :: map ScReport es' in
+  let cur := fst (fsm_run SNone (map RStatus es)) in
+  proj_events i (sc2_events os) = events_of (map RStatus es) ++ snd (fsm_run cur (map RStatus es')) /\
+  proj_events j (sc2_events os) = canon_path cur ++ snd (fsm_run cur (map RStatus es')) /\
+  path SNone (canon_path cur) /\ last (canon_path cur) SNone = cur.
+Proof. exact repaired_delivers_all_l. Qed.
+
+(* ---- ties to definitions generated from the current source ------------------------------------------------ *)
+Theorem ring_cap_is_code : ring_cap = ring_len.
+Proof. exact ring_cap_is_code_l. Qed.
+
+Theorem status_enum_is_code : map Z_of_status all_status = all_status_consts.
+Proof. exact status_enum_is_code_l. Qed.
+
+Theorem table_covers_enum :
+  map fst fsm_transitions = all_status_consts /\
+  forallb (fun row => forallb (fun z => existsb (Z.eqb z) all_status_consts) (snd row)) fsm_transitions = true.
+Proof. exact table_covers_enum_l. Qed.
+
 Print Assumptions table_is_diagram.
 Print Assumptions events_follow_diagram.
 Print Assumptions events_in_words.
@@ -145,3 +185,9 @@ Print Assumptions current_status_is_last_event.
 Print Assumptions auto_ok_in_any_linearisation.
 Print Assumptions check_then_act_uninterrupted_is_auto_ok.
 Print Assumptions check_then_act_auto_ok_refuted.
+Print Assumptions watcher_sees_every_event.
+Print Assumptions watchers_see_diagram_paths.
+Print Assumptions shared_repaired_delivers_all.
+Print Assumptions ring_cap_is_code.
+Print Assumptions status_enum_is_code.
+Print Assumptions table_covers_enum.
